@@ -27,11 +27,11 @@ def stored_hash(path):
 
 def run(ctx):
     rng = gen.rng_for(ctx.seed, 'c20')
-    n_cases = 60 if ctx.quick else 1200
+    n_cases = ctx.n(60, 1200)
     # K: the byte stream fed to the hash (hashlib wrapper) vs Lean Writer.hashFeed / hashFeed2d, every route
     model = core.Model()
     try:
-        for k in range(40 if ctx.quick else 800):
+        for k in range(ctx.n(40, 800)):
             route = ['numpy', 'segy', 'segy-ri', '2d'][k % 4]
             if route == '2d':
                 n, bs, q = gen.geometry_2d(rng, max_voxels=30_000)
